@@ -4,6 +4,7 @@
  * Input/transcript format: see ocaml/Table_driver.ml. */
 #include "Table.c"
 #include "hcommon.h"
+#include <malloc.h>
 
 /* probe key type: identity decides equality, hash is scripted by the case */
 struct PKey { int64_t id; uint64_t h; };
@@ -114,6 +115,22 @@ static void dump(var tv) {
   }
 }
 
+/* ALIASING arguments: pointers into the table's own storage.  in_key(t, id) is the key object the
+ * iteration yields for id (NULL when absent); get(t, k) yields the stored value object. */
+static var in_key(var tv, int64_t id) {
+  char want[64], kb[64];
+  snprintf(want, sizeof want, "%" PRId64, id);
+  foreach (k in tv) { show_key(k, kb, sizeof kb); if (strcmp(kb, want) == 0) return k; }
+  return NULL;
+}
+static var in_val(var tv, int64_t id) {      /* may raise KeyError */
+  var k = mkkey(id); var v = NULL; volatile int raised = 0;
+  try { v = get(tv, k); } catch (e in KeyError) { raised = 1; }
+  del_raw(k);
+  if (raised) throw(KeyError, "aliased argument: key %li absent", $I(id));
+  return v;
+}
+
 static void one_case(char* line) {
   char* bar = strchr(line, '|');
   if (!bar) { P("BADCASE"); return; }
@@ -172,6 +189,25 @@ static void one_case(char* line) {
           var v = get(t, k); rbuf[0] = 'v'; show_val(v, rbuf + 1, sizeof rbuf - 1); res = rbuf; del_raw(k); break; }
         case 'm': { var k = mkkey(strtoll(tok + 1, NULL, 10)); res = mem(t, k) ? "true" : "false"; del_raw(k); break; }
         case 'z': resize(t, (size_t)strtoull(tok + 1, NULL, 10)); break;
+        /* ---- aliasing arguments (all objects passed below live inside t's slot array) ---- */
+        case 'S': { char* c = strchr(tok, ','); *c = 0;      /* S<k>,<k2>: set(t, k, get(t, k2)) */
+          var v = in_val(t, strtoll(c + 1, NULL, 10));
+          var k = mkkey(strtoll(tok + 1, NULL, 10));
+          set(t, k, v); del_raw(k); break; }
+        case 'K': { char* c = strchr(tok, ','); *c = 0;      /* K<k>,<v>: set(t, iteration key for k, v) */
+          int64_t id = strtoll(tok + 1, NULL, 10);
+          var k = in_key(t, id); var fresh = NULL;
+          if (k is NULL) { k = fresh = mkkey(id); }
+          var v = mkval(strtoll(c + 1, NULL, 10));
+          set(t, k, v); del_raw(v); if (fresh) del_raw(fresh); break; }
+        case 'X': { char* c = strchr(tok, ','); *c = 0;      /* X<k>,<k2>: set(t, get(t, k) as key, get(t, k2)) */
+          var k = in_val(t, strtoll(tok + 1, NULL, 10));
+          var v = in_val(t, strtoll(c + 1, NULL, 10));
+          set(t, k, v); break; }
+        case 'G': { var k = in_val(t, strtoll(tok + 1, NULL, 10));     /* get(t, get(t, k)) */
+          var v = get(t, k); rbuf[0] = 'v'; show_val(v, rbuf + 1, sizeof rbuf - 1); res = rbuf; break; }
+        case 'M': { var k = in_val(t, strtoll(tok + 1, NULL, 10)); res = mem(t, k) ? "true" : "false"; break; }
+        case 'R': { var k = in_val(t, strtoll(tok + 1, NULL, 10)); rem(t, k); break; }
         case 'c': { var t2 = assign(alloc_raw(Table), t); del_raw(t); t = t2; break; }
         case 'a': { /* assign over an existing table of other element types with a binding of its own */
           var t2 = new_raw(Table, Int, Int); set(t2, $I(7), $I(8));
@@ -186,6 +222,8 @@ static void one_case(char* line) {
 }
 
 int main(int argc, char** argv) {
+  /* freed memory is scribbled over, so that a read from a freed slot array cannot go unnoticed */
+  if (!getenv("H_NO_PERTURB")) mallopt(M_PERTURB, 0xA5);
   run_all_cases(one_case);
   return 0;
 }
